@@ -14,6 +14,9 @@ var kindLiteral = map[string]string{"NilClass": "nil", "Integer": "1", "String":
 // concretizeSym rewrites a skeleton program that uses the verification-only class Sym into
 // plain Ruby: Sym.a -> a literal of the witnessed kind, Sym.u / Sym.w -> a ternary chain.
 func concretizeSym(src string, w map[string]string) (string, bool) {
+	if w["replay-mode"] == "config" {
+		return src, true // Sym is declared natively by zz_sym.json (symConfigJSON)
+	}
 	ok := true
 	re := regexp.MustCompile(`Sym\.([a-z]+)`)
 	out := re.ReplaceAllStringFunc(src, func(m string) string {
@@ -215,6 +218,36 @@ func replayPairNoSym(n *Native, job *Job, v *Violation) (ReplayResult, bool) {
 
 const symKwJSON = `{"frame": "Builtin", "class": "Sym", "instance_methods": [], "class_methods": [
  {"name": "kw", "arguments": [{"type": ["Int"]}, {"type": ["Int"], "key": "ka:"}, {"type": ["String"], "key": "kb:"}, {"type": ["Int"], "key": "kc:", "is_default": true}], "return_type": {"type": ["Int"]}}]}`
+
+var kindNotation = map[string]string{"NilClass": "NilClass", "Integer": "Int", "String": "String", "Bool": "Bool", "Float": "Float", "Symbol": "Symbol"}
+
+// symConfigJSON declares the verification-only class Sym natively: a configuration file in
+// which Sym.a/b/c/u/w return the kinds of the witness (and Sym.kw as in symKwJSON). Used for
+// the second replay attempt: a literal in place of `Sym.x` can hide a defect that needs the
+// value to come from a call.
+func symConfigJSON(w map[string]string) (string, bool) {
+	var ms []string
+	for _, name := range []string{"a", "b", "c", "u", "w"} {
+		kinds, have := w["Sym."+name]
+		if !have {
+			continue
+		}
+		var ts []string
+		for _, k := range strings.Split(kinds, ",") {
+			nt, ok := kindNotation[k]
+			if !ok {
+				return "", false
+			}
+			ts = append(ts, fmt.Sprintf("%q", nt))
+		}
+		ms = append(ms, fmt.Sprintf(`{"name": %q, "arguments": [], "return_type": {"type": [%s]}}`, name, strings.Join(ts, ", ")))
+	}
+	if len(ms) == 0 {
+		return "", false
+	}
+	ms = append(ms, `{"name": "kw", "arguments": [{"type": ["Int"]}, {"type": ["Int"], "key": "ka:"}, {"type": ["String"], "key": "kb:"}, {"type": ["Int"], "key": "kc:", "is_default": true}], "return_type": {"type": ["Int"]}}`)
+	return `{"frame": "Builtin", "class": "Sym", "instance_methods": [], "class_methods": [` + strings.Join(ms, ", ") + `]}`, true
+}
 
 // nativeConfigFor returns the .ti-config directory to use natively for a job; programs that
 // call Sym.kw get the job's configuration plus a file declaring that method.
@@ -485,7 +518,7 @@ func replayModes(n *Native, job *Job, v *Violation) (ReplayResult, bool) {
 		for i := 0; i < 3; i++ {
 			out, _, capHit := n.RunTi(map[string]string{"a.rb": src}, args, cfg)
 			res.Observed = tail(out, 300)
-			if strings.TrimSpace(out) == "timeout" || capHit {
+			if isTimeoutOut(out) || capHit {
 				hung++
 			}
 		}
@@ -528,7 +561,7 @@ func replayDeterminism(n *Native, job *Job, v *Violation) (ReplayResult, bool) {
 	res := ReplayResult{Cmd: "ti " + strings.Join(args, " ") + "   (repeated up to 40 times)"}
 	for i := 0; i < 40; i++ {
 		out, _, _ := n.RunTi(map[string]string{"a.rb": src}, args, cfg)
-		if strings.TrimSpace(out) == "timeout" || strings.TrimSpace(first) == "timeout" {
+		if isTimeoutOut(out) || isTimeoutOut(first) {
 			continue
 		}
 		if norm(out) != norm(first) {
